@@ -1,7 +1,7 @@
 (* C05 — Each manipulation call has exactly the effect an ordered-tree model predicts.
    Pinned statements only.  Model: Model/Store.v, Model/Manip.v. *)
 From Coq Require Import List NArith Permutation.
-From XotV Require Import Model.Base Model.Zipper Model.Access Model.Store Model.Manip Proofs.StoreProofs Proofs.ManipProofs Proofs.InvSteps Proofs.TreeFrame Proofs.Canon Proofs.CloneShape Proofs.WrapEffect Proofs.DetachEffect Spec.Shape.
+From XotV Require Import Model.Base Model.Zipper Model.Access Model.Store Model.Manip Proofs.StoreProofs Proofs.ManipProofs Proofs.InvSteps Proofs.TreeFrame Proofs.Canon Proofs.CloneShape Proofs.WrapEffect Proofs.DetachEffect Proofs.UnwrapEffect2 Spec.Shape Proofs.NoAdjFacts.
 Import ListNotations.
 Open Scope N_scope.
 
@@ -138,4 +138,27 @@ Example C05_seam_example :
   = FCons 1 (VText [97; 98]) FNil (FCons 4 (VElement 9) FNil FNil)
   /\ seam false (FCons 1 (VText [97]) FNil FNil) (FCons 3 (VText [98]) FNil FNil)
      = FCons 1 (VText [97]) FNil (FCons 3 (VText [98]) FNil FNil).
+Proof. split; reflexivity. Qed.
+
+
+(* element_unwrap of an element that has a parent and at least one ordinary child, consolidation on: the element's namespace and
+   attribute nodes are destroyed, the element itself goes, and its ordinary children [nrm_part (z_kids z)] take its place in
+   its sibling list; then the seams are consolidated, the left one first ([unwrap_level]): a text first child goes into a text
+   node that stands before it, and whatever then stands last before the old following siblings takes a text node that follows
+   it.  Every other sibling, the ancestors and every other tree are exactly as they were. *)
+Theorem C05_element_unwrap_effect :
+  forall st n z A B first last,
+    Good st -> cons st = true -> cur st n = Some z -> store st = fapp A (fapp (plug z) B) -> z_ups z <> [] ->
+    is_type st n TElement = true -> q_first_child st n = Some first -> q_last_child st n = Some last ->
+    store (fst (m_unwrap st n))
+    = fapp A (fapp (plug_ups (unwrap_level (z_before z) (nrm_part (z_kids z)) (z_after z)) (z_ups z)) B).
+Proof. exact unwrap_effect. Qed.
+Print Assumptions C05_element_unwrap_effect.
+
+(* the level on concrete lists: "a" <e>"b"</e> "c" becomes one text; "a" <e><x/>"b"</e> "c" becomes "a" <x/> "bc" *)
+Example C05_unwrap_level_example :
+  unwrap_level (FCons 1 (VText [97]) FNil FNil) (FCons 3 (VText [98]) FNil FNil) (FCons 4 (VText [99]) FNil FNil)
+  = FCons 1 (VText [97; 98; 99]) FNil FNil
+  /\ unwrap_level (FCons 1 (VText [97]) FNil FNil) (FCons 5 (VElement 9) FNil (FCons 3 (VText [98]) FNil FNil)) (FCons 4 (VText [99]) FNil FNil)
+     = FCons 1 (VText [97]) FNil (FCons 5 (VElement 9) FNil (FCons 3 (VText [98; 99]) FNil FNil)).
 Proof. split; reflexivity. Qed.
